@@ -2,7 +2,7 @@ from .gcp import Model as GCPModel
 from .ro import Model as ROModel
 from .lp import DecBounds, DecExpConstr, LinConstr
 from .lp import ConeConstr, PCvxConstr, CvxConstr, ExpConstr, LMIConstr
-from .lp import Vars, Affine
+from .lp import Vars, VarSub, Affine
 from .lp import RoAffine, RoConstr
 from .lp import DecVar, RandVar, DecLinConstr, DecCvxConstr, DecPCvxConstr
 from .lp import DecRoConstr
@@ -257,7 +257,8 @@ class Model:
             raise SyntaxError('Redefinition of the objective is not allowed.')
 
         if not isinstance(obj, (Real, PiecewiseConvex)):
-            if obj.size > 1:
+            size = obj.indices.size if isinstance(obj, VarSub) else obj.size
+            if size > 1:
                 raise ValueError('Incorrect function dimension.')
 
         self.obj = obj
@@ -284,7 +285,8 @@ class Model:
             raise SyntaxError('Redefinition of the objective is not allowed.')
 
         if not isinstance(obj, (Real, PiecewiseConvex)):
-            if obj.size > 1:
+            size = obj.indices.size if isinstance(obj, VarSub) else obj.size
+            if size > 1:
                 raise ValueError('Incorrect function dimension.')
 
         self.obj = obj
@@ -314,8 +316,12 @@ class Model:
             raise SyntaxError('Redefinition of the objective is not allowed.')
 
         if not isinstance(obj, (Real, PiecewiseConvex)):
-            if obj.size > 1:
+            size = obj.indices.size if isinstance(obj, VarSub) else obj.size
+            if size > 1:
                 raise ValueError('Incorrect function dimension.')
+
+        if ambset.model is not self:
+            raise ValueError('Models mismatch.')
 
         self.obj = obj
         self.obj_ambiguity = ambset
@@ -346,8 +352,12 @@ class Model:
             raise SyntaxError('Redefinition of the objective is not allowed.')
 
         if not isinstance(obj, (Real, PiecewiseConvex)):
-            if obj.size > 1:
+            size = obj.indices.size if isinstance(obj, VarSub) else obj.size
+            if size > 1:
                 raise ValueError('Incorrect function dimension.')
+
+        if ambset.model is not self:
+            raise ValueError('Models mismatch.')
 
         self.obj = obj
         self.obj_ambiguity = ambset
@@ -388,6 +398,13 @@ class Model:
                 elif isinstance(constr, (PWConstr, ExpPWConstr)):
                     if constr.model is not self:
                         raise ValueError('Models mismatch.')
+                    for piece in constr.pieces:
+                        if isinstance(piece, DecRoConstr):
+                            if piece.dec_model is not self.vt_model or \
+                               piece.rand_model is not self.sup_model:
+                                raise ValueError('Models mismatch.')
+                        elif piece.model is not self.vt_model:
+                            raise ValueError('Models mismatch.')
                 else:
                     raise TypeError('Unsupported constraints.')
 
